@@ -494,7 +494,10 @@ class InterpolatedPredictionStrategy(DefaultPredictionStrategy):
         fant_wmat = self.prepare_dense_wmat(fant_fant_covar)
 
         fant_likelihood = self.likelihood.get_fantasy_likelihood(**kwargs)
-        fant_noise = fant_likelihood.noise_covar(fant_wmat.transpose(-1, -2) if len(fant_wmat.shape) > 2 else fant_wmat)
+        # kwargs carry the noise of the fantasy observations for a fixed-noise likelihood (whose stored noise now covers train + fantasy points)
+        fant_noise = fant_likelihood.noise_covar(
+            fant_wmat.transpose(-1, -2) if len(fant_wmat.shape) > 2 else fant_wmat, **kwargs
+        )
         fant_root_vector = fant_noise.sqrt_inv_matmul(fant_wmat.transpose(-1, -2)).transpose(-1, -2)
 
         new_wmat = self.interp_inner_prod.add_low_rank(fant_root_vector.to_dense())
